@@ -221,7 +221,9 @@ def Member.accessor (m : Member) (which : Nat) : Option FnId :=
   | .prop g s d => if which = 0 then g else if which = 1 then s else d
   | _ => none
 
-def collectBasesProp (w : World) (bases : List ClsId) (key : String) (which : Nat) :
+/-- the contracts of the bases' accessors; a base whose accessor IS the function `self` - the derived property took it over
+unchanged (`@Base.prop.setter` keeps the base's getter object) - has nothing to hand down to it -/
+def collectBasesProp (w : World) (bases : List ClsId) (key : String) (which : Nat) (self : FnId) :
     Bool × List Nat × List Nat × List Nat :=
   (bases.foldl (fun (acc : BaseAcc) b =>
     match lookupMember w b key with
@@ -229,7 +231,7 @@ def collectBasesProp (w : World) (bases : List ClsId) (key : String) (which : Na
     | some m =>
       match m.accessor which with
       | none => acc
-      | some f => acc.add w (w.checker? f)) {}).result
+      | some f => if f == self then acc else acc.add w (w.checker? f)) {}).result
 
 def firstDuplicate (w : World) (snaps : List Nat) : Option String :=
   let rec go (seen : List String) : List Nat → Option String
@@ -275,14 +277,19 @@ def decorateOne (w : World) (key : String) (f : FnId) (inherit : Bool)
     .ok { w with heap := h3,
                  checkers := w.checkers.map (fun p => if p.1 == f then (f, { pre := r1, snaps := r2, posts := r3 }) else p) }
 
+/-- the bases that have something to hand down to the function `f` bound under `key`: a base in which `key` IS `f` - the
+member was taken over as it is (`m = Base.m`) - has not -/
+def basesFor (w : World) (bases : List ClsId) (key : String) (f : FnId) : List ClsId :=
+  bases.filter (fun b => (lookupMember w b key).bind Member.asFunc != some f)
+
 def decorateMember (w : World) (bases : List ClsId) (key : String) (m : Member) : Except DefErr World :=
   match m with
   | .func f | .static f | .classm f =>
-      decorateOne w key f (key != "__init__" && key != "__new__") (collectBases w bases key)
+      decorateOne w key f (key != "__init__" && key != "__new__") (collectBases w (basesFor w bases key f) key)
   | .prop g s d => do
-      let w ← (match g with | some f => decorateOne w key f true (collectBasesProp w bases key 0) | none => .ok w)
-      let w ← (match s with | some f => decorateOne w key f true (collectBasesProp w bases key 1) | none => .ok w)
-      (match d with | some f => decorateOne w key f true (collectBasesProp w bases key 2) | none => .ok w)
+      let w ← (match g with | some f => decorateOne w key f true (collectBasesProp w bases key 0 f) | none => .ok w)
+      let w ← (match s with | some f => decorateOne w key f true (collectBasesProp w bases key 1 f) | none => .ok w)
+      (match d with | some f => decorateOne w key f true (collectBasesProp w bases key 2 f) | none => .ok w)
   | .other => .ok w
 
 /-- `_collapse_invariants` for one dunder: a **fresh** merged list, stored whenever it is non-empty
